@@ -886,7 +886,7 @@ def residue_pairs():
     return res_
 
 
-def build_row(tc, fs, fm, fd, pres, mpres, rng, origin, chain=None, solid16=None, msolid16=None, dither=(0, 0, 0)):
+def build_row(tc, fs, fm, fd, pres, mpres, rng, origin, chain=None, solid16=None, msolid16=None, dither=(0, 0, 0), drep=0):
     """one composite request from a TLC-generated row of abstract pixel tuples; chain = the previous request
        whose destination this one continues on (same geometry; DST "=")"""
     op, mode, fam, row = tc["op"], tc["mode"], tc["fam"], tc["row"]
@@ -953,9 +953,9 @@ def build_row(tc, fs, fm, fd, pres, mpres, rng, origin, chain=None, solid16=None
             v = premult_native(fd, v)
         dpx.append(fd.word(v))
     dst = pack_pixels(fd.bpp, dpx, dx, dw, rng)
-    line = "C %d %d %d %d %d %d %d %d %d %d %d %d %d %d %d %d %d %d %s %s %s" % (
+    line = "C %d %d %d %d %d %d %d %d %d %d %d %d %d %d %d %d %d %d %d %s %s %s" % (
         op, 1 if mode == "ca" else 0, 0 if fm is None else 1, fs.code, fm.code if fm else 0, fd.code,
-        pres, mpres, sw, sx, mw, mx, dw, dx, w, dither[0], dither[1], dither[2],
+        pres, mpres, sw, sx, mw, mx, dw, dx, w, dither[0], dither[1], dither[2], drep,
         hx(src), hx(msk), "=" if chain is not None else hx(dst))
     keys = [(op, mode, fs.code, fm.code if fm else 0, fd.code, spx[spos(i)], mpx[i], dpx[i]) for i in range(w)]
     if chain is not None:
@@ -1024,6 +1024,37 @@ def gen_c01_cases(fmts, tcases, fastpaths, rng, tier):
             else:
                 pres = rng.choice([2, 4, 6])
             out.append(build_row(tc, fp["fs"], fp["fm"], fp["fd"], pres, 1 if fp["msolid"] else 0, rng, "fastpath"))
+    # ---- the four cells of the library's operator strength reduction (neither / source / destination / both opaque)
+    #      for every operator of the Porter-Duff, SATURATE, DISJOINT and CONJOINT families: destinations without alpha
+    #      with and without a repeat mode set on the DESTINATION image (legal; it must not change the result), sources
+    #      opaque by format, solid with alpha 1, a8r8g8b8 with alpha 255, translucent; all mask kinds
+    X888, R565 = fmts["x8r8g8b8"], fmts["r5g6b5"]
+    k = 0
+    for (op, mode), cands in sorted(by.items()):
+        if op >= 48:
+            continue
+        pool = [c for c in cands if c["fam"] in ("premul", "rndpm", "sat", "edge", "div")]
+        fm = None if mode == "none" else (fmts["a8"] if mode == "unified" else A8888)
+        for skind in ("fmt", "solid1", "a255", "trans"):
+            dvars = [(X888, 0), (X888, 1 + k % 3), (R565, 1 + (k + 1) % 3)] + ([(A8888, 1 + k % 3)] if skind == "trans" else [])
+            for (fd, drep) in dvars:
+                k += 1
+                tc = dict(pool[k % len(pool)])
+                row = [dict(t) for t in tc["row"][:6]]
+                if skind == "a255":
+                    for t in row:
+                        t["s"] = [255] + list(t["s"][1:])
+                tc["row"] = row
+                # an opaque source counts as opaque only under an opaque mask: every third masked row has a solid mask 1
+                mp, ms = (2, [0xffff] * 4) if (fm is not None and k % 3 == 0) else (0, None)
+                if skind == "fmt":
+                    out.append(build_row(tc, X888, fm, fd, 0, mp, rng, "reduce", msolid16=ms, drep=drep))
+                elif skind == "solid1":
+                    col = [0xffff] + [rng.choice(SOLID16) for _ in range(3)]
+                    out.append(build_row(tc, A8888, fm, fd, 7, mp, rng, "reduce", solid16=col, msolid16=ms, drep=drep))
+                else:
+                    out.append(build_row(tc, A8888, fm, fd, 0, mp, rng, "reduce", msolid16=ms, drep=drep))
+
     # ---- ordered dithering of the destination (bayer / blue noise, non-zero offsets) on narrow destinations: the
     #      request goes through the wide pipeline; the result must still be within one step of the real value
     k = 0
@@ -1167,6 +1198,7 @@ def run_c01(args):
     chk.extra["rows_by_presentation"] = {str(p): sum(1 for c in cases if c["pres"] == p) for p in range(8)}
     chk.extra["rows_with_solid_mask"] = sum(1 for c in cases if c["mpres"] == 1)
     chk.extra["rows_aimed_at_fast_paths"] = sum(1 for c in cases if c["origin"] == "fastpath")
+    chk.extra["rows_operator_reduction_cells"] = sum(1 for c in cases if c["origin"] == "reduce")
     chk.extra["rows_with_dithered_destination"] = sum(1 for c in cases if c["origin"] == "dither")
     chk.extra["rows_rounding_residue_suite"] = sum(1 for c in cases if c["origin"] == "residue")
     chk.extra["rows_with_solid_fill_source_or_mask_16bit"] = sum(1 for c in cases if c["origin"] == "solid16")
